@@ -7,8 +7,8 @@
    Python side and is decided by the snapshots of the check. *)
 From Coq Require Import QArith List Bool Arith Permutation.
 From NurbsV Require Import Base.Res Base.QList Spec.KnotSpec Spec.BSpline Gen.Consts Model.KV Model.Basis Model.CurveM Model.Ops
-  Model.CurveOps Model.Linalg Model.Quadrature Model.LeastSq Model.CurveLS.
-From NurbsV Require Import Proofs.InsertBasic Proofs.InsertCurve Proofs.RemoveBasic Proofs.EvalProofs.
+  Model.CurveOps Model.Linalg Model.Quadrature Model.LeastSq Model.CurveLS Model.MathOps.
+From NurbsV Require Import Proofs.InsertBasic Proofs.InsertCurve Proofs.RemoveBasic Proofs.EvalProofs Proofs.StateProofs.
 Import ListNotations.
 Open Scope Q_scope.
 Theorem C15_insert_keeps_lengths :
@@ -90,6 +90,64 @@ Theorem C15_evaluable :
        exists v : pt, curve_eval1 c u = Ok v /\ Forall2 Qeq v (curve_spec (kvec (ckv c)) (cdeg c) d P u).
 Proof. exact C01_eval_spline. Qed.
 Print Assumptions C15_evaluable.
+
+(* ---- the invariant over ALL operation histories (Proofs/StateProofs.v): Inv2 = well-formed vector, len(points) = npts,
+   equal point dimensions, len(weights) = npts, weights only with points.  mstep applies one of 12 mutators and leaves the
+   curve unchanged when it fails. ---- *)
+Theorem C15_step_preserves_invariant :
+  forall (c : curve) (o : mop), Inv2 c -> Inv2 (fst (mstep c o)).
+Proof. exact I5_step. Qed.
+Print Assumptions C15_step_preserves_invariant.
+
+Theorem C15_atomic :
+  forall (c : curve) (o : mop) (e : exn), snd (mstep c o) = Err e -> fst (mstep c o) = c.
+Proof. exact I5_atomic. Qed.
+Print Assumptions C15_atomic.
+
+Theorem C15_every_reachable_state :
+  forall (ops : list mop) (c0 : curve),
+       Inv2 c0 -> Inv2 (fold_left (fun (c : curve) (o : mop) => fst (mstep c o)) ops c0).
+Proof. exact I5_reachable. Qed.
+Print Assumptions C15_every_reachable_state.
+
+Theorem C15_every_reachable_state_polynomial :
+  forall (ops : list mop) (c0 : curve),
+       Inv c0 -> cW c0 = None -> Inv (fold_left (fun (c : curve) (o : mop) => fst (mstep c o)) ops c0).
+Proof. exact I5_reachable_poly. Qed.
+Print Assumptions C15_every_reachable_state_polynomial.
+
+Theorem C15_reachable_states_evaluate :
+  forall (ops : list mop) (c0 : curve) (P : list pt),
+       Inv2 c0 ->
+       let c := fold_left (fun (c : curve) (o : mop) => fst (mstep c o)) ops c0 in
+       cP c = Some P ->
+       cW c = None -> forall u : Q, kvalid1 (ckv c) u = true -> exists v : pt, curve_eval1 c u = Ok v.
+Proof. exact I6_reachable_evaluable. Qed.
+Print Assumptions C15_reachable_states_evaluate.
+
+Theorem C15_knot_insert_preserves :
+  forall (c : curve) (ns : list Q) (c' : curve), Inv c -> c_knot_insert c ns = Ok c' -> Inv c'.
+Proof. exact I1_knot_insert. Qed.
+Print Assumptions C15_knot_insert_preserves.
+
+Theorem C15_update_preserves :
+  forall (c : curve) (knew : kv) (tol : option Q) (nodes : option (list Q)) (c' : curve),
+       Inv c -> Wdep c -> c_update c knew tol nodes = Ok c' -> WF (kvec knew) (kdeg knew) -> Inv c'.
+Proof. exact I2_update. Qed.
+Print Assumptions C15_update_preserves.
+
+Theorem C15_update_needs_points_with_weights :
+  Inv cx_bad /\
+       WF (kvec cx_knew) (kdeg cx_knew) /\
+       (exists c' : curve, c_update cx_bad cx_knew None None = Ok c' /\ ~ Inv c').
+Proof. exact I2_counterexample. Qed.
+Print Assumptions C15_update_needs_points_with_weights.
+
+Theorem C15_clean_preserves :
+  forall (c : curve) (tol : Q) (c' : curve), Inv2 c -> c_clean c tol = Ok c' -> Inv2 c'.
+Proof. exact I4_clean. Qed.
+Print Assumptions C15_clean_preserves.
+
 
 Example C15_nonvacuous_atomic :
   c_knot_insert (mkcurve (mkkv [0; 1#2; 1] 0) (Some [[0]; [-2]]) None) [0; 1] = Err ValueError.
